@@ -10,6 +10,7 @@ import json, subprocess, sys, glob, os, re
 KF = '/verif/known_findings.json'
 # subject prefix -> (property, id) for fixes made by the main session
 FIXMAP = [
+ ("fix: building the traceback of a function called through an empty field name", ("C05", "F-ERR-EMPTYNAME")),
  ("fix: a registry overflow while a tail-called function", ("C12", "F-LIM-TAILREG")),
  ("fix: a coroutine created by a coroutine lost its context", ("C11", "F-CTX2")),
  ("fix: the extension word of a large table constructor", ("C07", "F-CMP-EXTW")),
